@@ -674,6 +674,20 @@ def version_threading(ctx, rule, modname):
                 kw = {x.arg: norm(x.value) for x in n.keywords}
             pos = [a.arg for a in fns[callee].args.args]
             vidx = pos.index('version')
+            if norm(call.func) in ('map', 'itertools.starmap', 'starmap'):
+                kw = {}
+                nargs_map = len(call.args) - 1
+                if nargs_map <= vidx:
+                    ctx.violation(rule, '%s::%s' % (F, k), norm(call)[:160],
+                                  'a version-2.0 grid with Remove (or NA, a list...) in the position written by `%s`: `%s` calls it '
+                                  'with %d positional argument(s) only, so it encodes with the default (latest) version although '
+                                  'the document says 2.0' % (callee, norm(call)[:60], nargs_map),
+                                  '%s maps the version-sensitive %s over its arguments without passing the version' % (k, callee),
+                                  file=F, line=n.lineno, engine='E7')
+                else:
+                    ctx.error(rule, '%s:%d map() passes %d sequences to %s; whether one of them carries the version is not decided'
+                              % (F, n.lineno, nargs_map, callee))
+                continue
             nargs = len(call.args) - (1 if norm(call.func) == 'functools.partial' else 0)
             passed = kw.get('version')
             if passed is None and nargs > vidx:
@@ -806,10 +820,14 @@ def header_version(ctx, rule, modname):
 def _callee_name(n):
     if not isinstance(n, ast.Call):
         return None
+    if norm(n.func) in ('map', 'itertools.starmap', 'starmap') and n.args and isinstance(n.args[0], ast.Name):
+        return n.args[0].id          # map(f, ...) calls f with positional arguments only
     if isinstance(n.func, ast.Name):
         return n.func.id
     if norm(n.func) == 'functools.partial' and n.args and isinstance(n.args[0], ast.Name):
         return n.args[0].id
+    if norm(n.func) in ('map', 'itertools.starmap', 'starmap') and n.args and isinstance(n.args[0], ast.Name):
+        return n.args[0].id          # map(f, ...) calls f with positional arguments only
     return None
 
 
@@ -849,6 +867,43 @@ def xstr_codec(ctx, rule):
         return
     s = fn.args.args[0].arg
     n = 0
+    # decoding (XStr.__init__) and encoding (data_to_string) must recognise the encoding name the same way
+    try:
+        init = m.func('datatypes', 'XStr.__init__')
+
+        def tested(f_, selfname):
+            out = {}
+            for t in [x for x in ast.walk(f_) if isinstance(x, ast.Compare) and len(x.ops) == 1 and isinstance(x.ops[0], ast.Eq)]:
+                sides = [t.left, t.comparators[0]]
+                lit = [x for x in sides if isinstance(x, ast.Constant) and x.value in ('hex', 'b64')]
+                oth = [x for x in sides if not isinstance(x, ast.Constant)]
+                if lit and oth:
+                    out[lit[0].value] = norm(oth[0]).replace('%s.' % selfname, '')
+            return out
+        ti = tested(init, init.args.args[0].arg)
+        # locals of __init__ that hold (a transform of) the encoding
+        for a_ in [x for x in ast.walk(init) if isinstance(x, ast.Assign) and len(x.targets) == 1 and isinstance(x.targets[0], ast.Name)]:
+            for k_ in list(ti):
+                if ti[k_] == a_.targets[0].id:
+                    ti[k_] = norm(a_.value)
+        td = tested(fn, s)
+        for enc_ in ('hex', 'b64'):
+            if enc_ in ti and enc_ in td:
+                if ti[enc_] == td[enc_]:
+                    ctx.ob(rule, 'XStr: %s is recognised by `%s == %r` when decoding and when encoding' % (enc_, ti[enc_], enc_), True,
+                           '%s:%d' % (FDT, init.lineno))
+                else:
+                    ctx.violation(rule, '%s::XStr' % FDT, '__init__ tests `%s`, data_to_string tests `%s`' % (ti[enc_], td[enc_]),
+                                  'the value Hex("deadbeef") (encoding name in another letter case): the constructor decodes the '
+                                  'payload to bytes because `%s == %r`, but data_to_string tests `%s == %r`, takes the not-decoded '
+                                  'branch and hands the bytes back as if they were text -- the ZINC dump raises TypeError, the JSON '
+                                  'dump writes x:Hex:bytearray(b\'...\')' % (ti[enc_], enc_, td[enc_], enc_),
+                                  'XStr recognises the %s encoding differently when decoding and when encoding' % enc_, file=FDT,
+                                  line=init.lineno, engine='E4')
+            else:
+                ctx.error(rule, 'XStr: test for the %s encoding not found in __init__/data_to_string' % enc_)
+    except AnalysisError as e:
+        ctx.error(rule, str(e))
     for node in walk_no_nested(fn):
         if not isinstance(node, ast.Return) or node.value is None:
             continue
